@@ -40,6 +40,7 @@ class Scheduler:
         self.free_run = False  # watchdog fired: let everything run
         self.installed = False
         self.wait_limit = 30.0
+        self.site_log: Optional[List[Tuple[str, int]]] = None  # when a list: the site of every point, in order (profiling runs)
 
     # ---- sys.monitoring plumbing
     def install(self):
@@ -73,7 +74,10 @@ class Scheduler:
             self.points += 1
             n = self.points_by_thread.get(lid, 0) + 1
             self.points_by_thread[lid] = n
-            self.sites.add((os.path.basename(code.co_filename), line))
+            site = (os.path.basename(code.co_filename), line)
+            self.sites.add(site)
+            if self.site_log is not None:
+                self.site_log.append(site)
             if self.current != lid:
                 # should not happen: a thread runs only with the baton; tolerate (first entry)
                 self._wait_for_baton(lid)
